@@ -1,5 +1,6 @@
 """C08 — ill-nested constructs and unbalanced parentheses are never accepted."""
 import random
+import re
 from fv import real, gen, layout, engine, findings
 from fv.props import util
 
@@ -9,7 +10,7 @@ RULE = ("for every generated valid program, every single structural mutation in 
         "context); oracle: the parse does not return a tree. non-trivial = the mutated construct is nested >= 1 deep or named")
 ASSUMPTIONS = ["mutations that leave a valid program are excluded by construction: removing a PROGRAM statement; openers of program "
                "units; non-block DO (no END of its own); a label-DO closed by a labelled CONTINUE (the CONTINUE is a statement of its "
-               "own); a surplus bare END / END PROGRAM line (an empty main program without PROGRAM statement)"]
+               "own); a surplus END line of a program unit that the enclosing units absorb (the copy closes the enclosing unit, whose END closes the next, ...) and whose left-over is a bare END / END PROGRAM line (an empty main program without PROGRAM statement)"]
 TIE_MODULES = ["FparserModel.Block", "FparserModel.Splitline", "FparserModel.Generated.Blocks2008"]
 
 UNITS = {"program", "module", "submodule", "subroutine", "function", "blockdata"}
@@ -32,11 +33,42 @@ def _paren_positions(text):
     return out
 
 
+_END = re.compile(r"^END\s*(PROGRAM|MODULE|SUBMODULE|SUBROUTINE|FUNCTION|BLOCK\s*DATA)?\s*(\w+)?$")
+
+
+def _end_parts(st):
+    m = _END.match(" ".join(t.upper() for t in st.toks)) if st is not None else None
+    return (m.group(1), m.group(2)) if m else None
+
+
+def surplus_end_absorbed(b, parent_of):
+    """A surplus copy of the END line of program unit `b` can leave a VALID program: the copy
+    closes the enclosing unit when it fits that unit's END statement (bare END, or END <kind>
+    [<name>] of the same kind and name), the enclosing unit's own END then closes the next
+    one out, and so on; the END left over at top level is a complete (empty) main program when
+    it is a bare END or END PROGRAM.  True when every step fits (over-approximated, so that a
+    mutant that might be valid is never required to be rejected)."""
+    cur = _end_parts(b.close)
+    node = parent_of.get(id(b))
+    while node is not None:
+        if cur is None or node.cons not in UNITS or node.close is None:
+            return False
+        kind, name = cur
+        if kind is not None and kind.replace(" ", "") != node.cons.upper():
+            return False
+        if name is not None and name.lower() not in [t.lower() for t in node.open.toks]:
+            return False
+        cur = _end_parts(node.close)
+        node = parent_of.get(id(node))
+    return cur is not None and cur[0] in (None, "PROGRAM")
+
+
 def mutations(p, rng, max_paren=12):
     """yield (kind, cons, nontrivial, lines)"""
     flat = layout.flat_with_depth(p)
     lines = [("  " * d) + s.text() for s, d in flat]
     blocks = p.blocks()
+    parent_of = {id(b): parent for b, depth, parent in blocks}
     for b, depth, parent in blocks:
         if b.cons == "nonblockdo":
             continue
@@ -50,7 +82,7 @@ def mutations(p, rng, max_paren=12):
         closer_is_stmt = b.cons == "labeldo" and ct0[:1] == ["CONTINUE"]
         # a surplus bare END / END PROGRAM [name] line is a main program without PROGRAM
         # statement, i.e. another (empty) program unit, not an ill-nested construct
-        surplus_is_unit = b.cons in UNITS and (ct0 == ["END"] or ct0[:2] == ["END", "PROGRAM"] or ct0[:1] == ["ENDPROGRAM"])
+        surplus_is_unit = b.cons in UNITS and surplus_end_absorbed(b, parent_of)
         if b.cons not in UNITS and oi is not None and not closer_is_stmt:
             yield ("del-opener", b.cons, nt, lines[:oi] + lines[oi + 1:])
         if ci is not None:
